@@ -11,6 +11,7 @@
 From Coq Require Import ZArith List Bool.
 From SP Require Import Base.Result Base.Bytes Base.Crc16 Model.PduHeader Spec.PduHeaderSpec
   Model.FileDirective Model.Nak Spec.PduCSpec Proofs.NakProofs.
+From SP Require Import Proofs.RoundtripLimits.
 Import ListNotations.
 Open Scope Z_scope.
 
@@ -104,3 +105,17 @@ Example C06_nak_too_large_example :
   | Err _ => None
   end = Some (Err EValue).
 Proof. exact nak_too_large_example. Qed.
+
+(* instances of C06_nak_too_large_fails (end of scope 2^64 with 64-bit fields: struct.error on the
+   code, not ValueError - packing fails, nothing truncated) and of C06_nak_too_large_32 (an offset
+   2^32 with 32-bit fields: ValueError) *)
+Example C06_nak_too_large_fails_example :
+  flag (cf_large (nk_conf nak_too_large_p64)) /\
+  ~ pair_ok (nak_w (nk_conf nak_too_large_p64)) (nk_start nak_too_large_p64, nk_end nak_too_large_p64) /\
+  nak_pack nak_too_large_p64 = Err EStruct.
+Proof. exact nak_too_large_fails_example. Qed.
+Example C06_nak_too_large_32_example :
+  cf_large (nk_conf nak_too_large_p32) = 0 /\
+  Exists (fun se => fst se >= 2 ^ 32 \/ snd se >= 2 ^ 32) (nk_segs nak_too_large_p32) /\
+  nak_pack nak_too_large_p32 = Err EValue.
+Proof. exact nak_too_large_32_example. Qed.
